@@ -312,3 +312,355 @@ Proof.
       rewrite (to_bytes_small 1 x) by exact Tx. cbn [bind]. apply G.
     + apply G.
 Qed.
+
+(* ---------------------------------------------------------------------------- *)
+(* what every emitted component looks like                                       *)
+
+Definition comp_ok (cp : comp) : Prop :=
+  exists ty, ty < 3 /\ dget N.eqb BF3TAG_TYPE (c_desc cp) = Some [n2b ty] /\
+    (forall ib, dget N.eqb BF3TAG_INTF (c_desc cp) = Some ib ->
+                is_some (rev_lookup (from_be ib) BF3INTF_names) = true) /\
+    (ty = BF3TYPE_PERIPHERAL -> dget N.eqb BF3TAG_HWCID (c_desc cp) <> None).
+
+Lemma from_be_single n : n < 256 -> from_be [n2b n] = n.
+Proof. intro H. unfold from_be. cbn [fold_left]. rewrite b2n_n2b_small by exact H. lia. Qed.
+
+Lemma intf_ok_lookup x : intf_ok x = true -> is_some (rev_lookup (from_be [n2b x]) BF3INTF_names) = true.
+Proof.
+  unfold intf_ok. intro H. apply andb_true_iff in H as [H1 H2]. apply N.ltb_lt in H1.
+  rewrite from_be_single by exact H1. exact H2.
+Qed.
+
+Lemma emit_result_comp_ok data i c i' c' cp : emit_result data i c i' c' (Some cp) -> comp_ok cp.
+Proof.
+  intros (l0 & rest & oty & hw & ofmt & intf & Hs & HM & H).
+  pose proof (dget_In _ _ _ HM) as Hin.
+  pose proof table_entries_ok as T. rewrite forallb_forall in T. specialize (T _ Hin).
+  unfold entry_ok in T. cbn [snd] in T.
+  destruct oty as [ty|]; [|destruct H as [_ [_ H]]; discriminate].
+  destruct H as (fmt & od & -> & Ht & Hf & X & H).
+  destruct od as [d|]; [|discriminate].
+  destruct H as (blob & Cv & Hc). inversion Hc; subst cp. cbn [c_desc].
+  apply andb_true_iff in T as [T Ti]. apply andb_true_iff in T as [T Th]. apply andb_true_iff in T as [Tt Tf].
+  apply N.ltb_lt in Tt.
+  apply exec_normal_form in X.
+  destruct X as (vR & vC & vP & vH & vK & vF & cid & cver & vCr & sup & vI & _ & _ & _ & _ & _ & _ & HI & _ & _ & Hd).
+  destruct sup; [|discriminate]. inversion Hd; subst d. clear Hd.
+  unfold comp_ok. cbn [c_desc].
+  exists ty. split; [exact Tt|]. split.
+  - rewrite !dget_oset. cbn. unfold initial_desc. rewrite !dget_oset. reflexivity.
+  - split.
+    + intros ib Hib. rewrite dget_oset in Hib. rewrite N.eqb_refl in Hib.
+      destruct vI as [v|].
+      * inversion Hib; subst ib.
+        unfold st_select_if in HI. destruct (dget str_eqb s_SELECT_IF i) as [p|]; [|destruct HI; discriminate].
+        destruct HI as (proto & _ & HI). destruct (str_eqb proto s_star); [destruct HI; discriminate|].
+        destruct (dget str_eqb proto BF2_INTERFACES) as [n|] eqn:B; [|destruct HI; discriminate].
+        destruct HI as (_ & Hn & Hv). inversion Hv; subst v.
+        destruct (dget_str_In _ _ _ B) as [k' Hk].
+        pose proof interfaces_ok as IO. rewrite forallb_forall in IO. specialize (IO _ Hk). cbn [snd] in IO.
+        apply intf_ok_lookup. exact IO.
+      * rewrite !dget_oset in Hib. cbn in Hib. unfold initial_desc in Hib. rewrite dget_oset in Hib.
+        rewrite N.eqb_refl in Hib. destruct intf as [x|]; cbn [option_map] in Hib.
+        -- inversion Hib; subst ib. apply intf_ok_lookup. exact Ti.
+        -- rewrite dget_oset in Hib. cbn in Hib. discriminate.
+    + intros Hty. rewrite !dget_oset. cbn.
+      destruct vH as [v|]; [discriminate|].
+      rewrite ?dget_oset. cbn. unfold initial_desc. rewrite ?dget_oset. cbn.
+      destruct hw as [h|]; cbn [option_map]; [discriminate|].
+      subst ty. discriminate.
+Qed.
+
+Lemma log_comps_ok : forall l, Forall section_ok l -> Forall comp_ok (comps_of l).
+Proof.
+  induction l as [|[oc src] t IH]; intro F; [constructor|].
+  inversion F as [|? ? He Ft]; subst. unfold comps_of. cbn [flat_map fst].
+  apply Forall_app. split; [|exact (IH Ft)].
+  destruct oc as [cp|]; [|constructor]. constructor; [|constructor].
+  destruct He as (i & c & i' & c' & He). eapply emit_result_comp_ok. exact He.
+Qed.
+
+(* ---------------------------------------------------------------------------- *)
+(* annotations                                                                   *)
+
+Lemma utf8_err_n : forall n bs e, (length bs <= n)%nat -> utf8_decode bs = Err e -> e = EUnicode.
+Proof.
+  induction n as [|n IH]; intros bs e Hl.
+  - destruct bs; [discriminate|cbn in Hl; lia].
+  - destruct bs as [|b0 t0]; [discriminate|]. cbn [utf8_decode].
+    assert (R : forall t (k : str -> str), (length t <= n)%nat ->
+                (let* r := utf8_decode t in Ok (k r)) = Err e -> e = EUnicode).
+    { intros t k Ht. destruct (utf8_decode t) eqn:U; cbn [bind]; [discriminate|].
+      intro H; inversion H; subst. exact (IH t _ Ht U). }
+    assert (Q : @Err str EUnicode = Err e -> e = EUnicode) by (intro H; inversion H; reflexivity).
+    cbn [length] in Hl.
+    destruct (b0 <? 128); [apply (R t0 (fun r => b0 :: r)); lia|].
+    destruct ((194 <=? b0) && (b0 <=? 223)).
+    { destruct t0 as [|b1 t1]; [exact Q|]. destruct (is_cont b1); [|exact Q].
+      apply (R t1 (fun r => ((b0 - 192) * 64 + (b1 - 128)) :: r)). cbn [length] in Hl. lia. }
+    destruct ((224 <=? b0) && (b0 <=? 239)).
+    { destruct t0 as [|b1 [|b2 t2]]; try exact Q.
+      match goal with |- (if ?c then _ else _) = _ -> _ => destruct c end; [|exact Q].
+      apply (R t2 (fun r => ((b0 - 224) * 4096 + (b1 - 128) * 64 + (b2 - 128)) :: r)). cbn [length] in Hl. lia. }
+    destruct ((240 <=? b0) && (b0 <=? 244)); [|exact Q].
+    destruct t0 as [|b1 [|b2 [|b3 t3]]]; try exact Q.
+    match goal with |- (if ?c then _ else _) = _ -> _ => destruct c end; [|exact Q].
+    apply (R t3 (fun r => ((b0 - 240) * 262144 + (b1 - 128) * 4096 + (b2 - 128) * 64 + (b3 - 128)) :: r)).
+    cbn [length] in Hl. lia.
+Qed.
+
+Lemma version_str_err name ov e : version_str name ov = Err e -> e = EUnicode.
+Proof.
+  unfold version_str. destruct ov as [[|x v]|]; try discriminate.
+  destruct (starts_with s_SM name && (4 <=? blen (x :: v))) eqn:C1.
+  - apply andb_true_iff in C1 as [_ C1]. apply N.leb_le in C1.
+    destruct v as [|b [|c [|d r]]]; try discriminate; rewrite !blen_cons in C1; cbn in C1; lia.
+  - destruct (starts_with s_BGM name && (7 <=? blen (x :: v))); [|discriminate].
+    destruct (utf8_decode (map b2n (x :: v))) eqn:U; cbn [bind]; [discriminate|].
+    intro H; inversion H; subst. eapply (utf8_err_n _ _ _ (le_n _)). exact U.
+Qed.
+
+Lemma filter_str_err f e : pfid2_filter_to_str f = Err e -> e = EBf3.
+Proof.
+  rewrite filter_str_is_printed_expr. destruct (filter_header_ok f); [discriminate|].
+  intro H; inversion H; reflexivity.
+Qed.
+
+Lemma annotation_err c e : comp_ok c -> annotation c = Err e -> is_format_or_value e = true.
+Proof.
+  intros (ty & Hty & HT & HI & HH). unfold annotation, desc_get. rewrite HT. cbn [bind].
+  rewrite from_be_single by lia.
+  assert (Tail : forall base,
+    match dget N.eqb BF3TAG_PFID2 (c_desc c) with
+    | Some f => let* fs := pfid2_filter_to_str f in Ok (base ++ s_pfid_open ++ fs ++ [93])
+    | None => Ok base
+    end = Err e -> is_format_or_value e = true).
+  { intro base. destruct (dget N.eqb BF3TAG_PFID2 (c_desc c)) as [f|]; [|discriminate].
+    destruct (pfid2_filter_to_str f) eqn:F; cbn [bind]; [discriminate|].
+    intro H; inversion H; subst. apply filter_str_err in F. subst. reflexivity. }
+  assert (Cases : ty = 0 \/ ty = 1 \/ ty = 2) by lia.
+  destruct Cases as [-> | [-> | ->]].
+  - change (0 =? BF3TYPE_MAIN) with false. change (0 =? BF3TYPE_LOADER) with true. cbv iota.
+    destruct (dget N.eqb BF3TAG_INTF (c_desc c)) as [ib|] eqn:I; cbn [bind].
+    + specialize (HI ib eq_refl). destruct (rev_lookup (from_be ib) BF3INTF_names); [|discriminate].
+      cbn [bind]. apply Tail.
+    + intro H; inversion H; reflexivity.
+  - change (1 =? BF3TYPE_MAIN) with false. change (1 =? BF3TYPE_LOADER) with false.
+    change (1 =? BF3TYPE_PERIPHERAL) with true. cbv iota.
+    destruct (dget N.eqb BF3TAG_HWCID (c_desc c)) as [hb|] eqn:Hh; [|exfalso; apply HH; reflexivity].
+    cbn [bind].
+    match goal with |- (let* base := (let* vs := ?V in _) in _) = _ -> _ => destruct V as [vs|] eqn:EV end; cbn [bind].
+    + apply Tail.
+    + intro H; inversion H; subst. apply version_str_err in EV. subst. reflexivity.
+  - change (2 =? BF3TYPE_MAIN) with true. cbv iota. cbn [bind]. apply Tail.
+Qed.
+
+Lemma annotations_from_err : forall cs n e, Forall comp_ok cs ->
+  annotations_from n cs = Err e -> is_format_or_value e = true.
+Proof.
+  induction cs as [|c t IH]; intros n e F; cbn [annotations_from]; [discriminate|].
+  inversion F as [|? ? Hc Ft]; subst.
+  destruct (annotation c) eqn:A; cbn [bind].
+  - destruct (annotations_from (n + 1) t) eqn:R; cbn [bind]; [discriminate|].
+    intro H; inversion H; subst. exact (IH _ _ Ft R).
+  - intro H; inversion H; subst. exact (annotation_err _ _ Hc A).
+Qed.
+
+Lemma sort_comps_ok cs : Forall comp_ok cs -> exists sorted, sort_comps cs = Ok sorted.
+Proof.
+  intro F. unfold sort_comps.
+  assert (M : exists keyed, mapM (fun c => let* k := desc_get BF3TAG_TYPE (c_desc c) in Ok (k, c)) cs = Ok keyed).
+  { induction F as [|c t (ty & _ & HT & _) Ft IH]; [eexists; reflexivity|].
+    cbn [mapM]. unfold desc_get at 1. rewrite HT. cbn [bind]. destruct IH as [k Hk]. rewrite Hk. cbn [bind].
+    eexists. reflexivity. }
+  destruct M as [keyed Hk]. rewrite Hk. cbn [bind]. eexists. reflexivity.
+Qed.
+
+Lemma finish_err s enforce e : Forall comp_ok (comps_of (s_log s)) ->
+  finish s enforce = Err e -> is_format_or_value e = true.
+Proof.
+  intro F. unfold finish.
+  destruct (enforce && negb (dmem str_eqb s_Bf3Update (s_comments s))); [intro H; inversion H; reflexivity|].
+  destruct (sort_comps_ok _ F) as [sorted Hs]. rewrite Hs. cbn [bind].
+  destruct (annotations sorted) eqn:A; cbn [bind]; [discriminate|].
+  intro H; inversion H; subst. unfold annotations in A.
+  eapply annotations_from_err; [|exact A].
+  eapply Permutation_Forall; [apply Permutation_sym, (sort_comps_perm _ _ Hs)|exact F].
+Qed.
+
+(* ---------------------------------------------------------------------------- *)
+(* the state machine                                                             *)
+
+(* tokens the text parser can produce: data groups are not empty, no instruction
+   is called "load" *)
+Definition tok_ok (t : token) : Prop :=
+  match t with
+  | Load ls => ls <> []
+  | Instr name _ => str_eqb name s_load = false
+  end.
+
+Lemma emit_keep_err s e : emit_keep s = Err e -> is_format_or_value e = true.
+Proof.
+  unfold emit_keep. destruct (emit _ _ _) as [[[i c] [cp|]]|x] eqn:E; cbn [bind]; try discriminate.
+  intro H; inversion H; subst. eapply emit_err. exact E.
+Qed.
+
+Lemma emit_drop_err s e : emit_drop s = Err e -> is_format_or_value e = true.
+Proof.
+  unfold emit_drop. destruct (emit _ _ _) as [[[i c] oc]|x] eqn:E; cbn [bind]; try discriminate.
+  intro H; inversion H; subst. eapply emit_err. exact E.
+Qed.
+
+Lemma step_err s t e : tok_ok t -> step s t = Err e -> is_format_or_value e = true.
+Proof.
+  destruct t as [ls|name p]; cbn [tok_ok step].
+  - intro Hne. destruct ls as [|l0 r]; [congruence|].
+    destruct (negb (is_known_tagtype (l_type l0))); [intro H; inversion H; reflexivity|].
+    destruct (dmem N.eqb (l_type l0) BF2_TAGTYPE_MAP && nonempty (s_data s)); [|discriminate].
+    destruct (emit_drop s) eqn:E; cbn [bind]; [discriminate|].
+    intro H; inversion H; subst. eapply emit_drop_err. exact E.
+  - intros ->.
+    destruct (str_eqb name s_CHECK_FWVER && dmem str_eqb s_CHECK_FWVER (s_instrs s)).
+    + destruct (emit_keep s) as [s1|] eqn:E; cbn [bind].
+      * destruct (str_eqb name s_REBOOT); [apply emit_keep_err|discriminate].
+      * intro H; inversion H; subst. eapply emit_keep_err. exact E.
+    + cbn [bind]. destruct (str_eqb name s_REBOOT); [apply emit_keep_err|discriminate].
+Qed.
+
+Lemma foldM_step_err : forall toks s e, Forall tok_ok toks ->
+  foldM step toks s = Err e -> is_format_or_value e = true.
+Proof.
+  induction toks as [|t ts IH]; intros s e F; cbn [foldM]; [discriminate|].
+  inversion F as [|? ? Ht Fts]; subst.
+  destruct (step s t) as [s1|] eqn:E; cbn [bind].
+  - apply IH. exact Fts.
+  - intro H; inversion H; subst. eapply step_err; eassumption.
+Qed.
+
+Theorem import_tokens_closure toks enforce e : Forall tok_ok toks ->
+  bf2_import toks enforce = Err e -> is_format_or_value e = true.
+Proof.
+  intro F. unfold bf2_import. destruct (run toks) as [s|x] eqn:R; cbn [bind].
+  - apply finish_err. apply log_comps_ok. apply (run_sections _ _ R).
+  - intro H; inversion H; subst. unfold run in R.
+    destruct (foldM step toks (mkSt [] [] [] [])) as [s0|y] eqn:E; cbn [bind] in R.
+    + destruct (nonempty (s_data s0)); [eapply emit_drop_err; exact R|discriminate].
+    + inversion R; subst. eapply foldM_step_err; eassumption.
+Qed.
+
+(* ---------------------------------------------------------------------------- *)
+(* the text parser: only ValueError, and only tokens that are tok_ok             *)
+
+Lemma parse_data_line_err ln e : parse_data_line ln = Err e -> e = EValue.
+Proof.
+  unfold parse_data_line.
+  destruct (hex2bin ln) as [rdata|] eqn:Hx; cbn [bind];
+    [|intro H; inversion H; subst; eapply hex2bin_err; exact Hx].
+  destruct (rd_read_int 2 _) as [[ndx r1]|] eqn:R1; cbn [bind];
+    [|intro H; inversion H; subst; eapply rd_read_int_err; exact R1].
+  destruct (rd_read_int 1 r1) as [[ty r2]|] eqn:R2; cbn [bind];
+    [|intro H; inversion H; subst; eapply rd_read_int_err; exact R2].
+  destruct (rd_read_int 1 r2) as [[tl r3]|] eqn:R3; cbn [bind];
+    [|intro H; inversion H; subst; eapply rd_read_int_err; exact R3].
+  destruct (rd_read tl r3) as [[tag r4]|] eqn:R4; cbn [bind]; [discriminate|].
+  intro H; inversion H; subst. eapply rd_read_err. exact R4.
+Qed.
+
+Lemma parse_params_err ps e : parse_params ps = Err e -> e = EValue.
+Proof.
+  unfold parse_params.
+  match goal with |- (let* kvs := mapM ?f ?l in _) = _ -> _ => destruct (mapM f l) eqn:M end; cbn [bind]; [discriminate|].
+  intro H; inversion H; subst.
+  eapply (mapM_err _ (fun x => x = EValue)); [|exact M].
+  intros p x. cbv beta. destruct (split_on 61 (strip p)) as [|k [|v [|? ?]]]; try discriminate;
+    intro Hx; inversion Hx; reflexivity.
+Qed.
+
+Lemma parse_cmd_line_facts rest :
+  (forall e, parse_cmd_line rest = Err e -> e = EValue) /\
+  (forall tk, parse_cmd_line rest = Ok tk -> tok_ok tk).
+Proof.
+  unfold parse_cmd_line. destruct (split_ws1 rest) as [|cmd [|ps [|? ?]]].
+  - split; [intros e H; inversion H; reflexivity|discriminate].
+  - destruct (parse_params []) as [d|x] eqn:P; cbn [bind].
+    + destruct (str_eqb cmd s_load) eqn:L; split; try discriminate.
+      * intros e H; inversion H; reflexivity.
+      * intros tk H; inversion H; subst. exact L.
+    + split; [|discriminate]. intros e H; inversion H; subst. eapply parse_params_err. exact P.
+  - destruct (parse_params ps) as [d|x] eqn:P; cbn [bind].
+    + destruct (str_eqb cmd s_load) eqn:L; split; try discriminate.
+      * intros e H; inversion H; reflexivity.
+      * intros tk H; inversion H; subst. exact L.
+    + split; [|discriminate]. intros e H; inversion H; subst. eapply parse_params_err. exact P.
+  - split; [intros e H; inversion H; reflexivity|discriminate].
+Qed.
+
+Lemma parse_meta_line_facts rest :
+  (forall e, parse_meta_line rest = Err e -> e = EValue) /\
+  (forall tk, parse_meta_line rest = Ok tk -> tok_ok tk).
+Proof.
+  unfold parse_meta_line. destruct (split_on 58 rest) as [|name [|value [|? ?]]];
+    try (split; [intros e H; inversion H; reflexivity|discriminate]).
+  destruct (str_eqb name s_load) eqn:L; split; try discriminate.
+  - intros e H; inversion H; reflexivity.
+  - intros tk H; inversion H; subst. exact L.
+Qed.
+
+Lemma parse_lines_facts : forall lns fw,
+  (forall e, parse_lines lns fw = Err e -> e = EValue) /\
+  (forall toks, parse_lines lns fw = Ok toks -> Forall tok_ok toks).
+Proof.
+  induction lns as [|ln t IH]; intro fw; cbn [parse_lines].
+  - split; [discriminate|]. intros toks H; inversion H; constructor.
+  - assert (Cons : forall (r : result token) fw',
+      (forall e, r = Err e -> e = EValue) -> (forall tk, r = Ok tk -> tok_ok tk) ->
+      (forall e, (let* tk := r in let* rr := parse_lines t fw' in Ok (tk :: rr)) = Err e -> e = EValue) /\
+      (forall toks, (let* tk := r in let* rr := parse_lines t fw' in Ok (tk :: rr)) = Ok toks -> Forall tok_ok toks)).
+    { intros r fw' He Ho. destruct r as [tk|x]; cbn [bind].
+      - destruct (parse_lines t fw') as [rr|y] eqn:P; cbn [bind].
+        + split; [discriminate|]. intros toks H; inversion H; subst.
+          constructor; [apply Ho; reflexivity|apply (IH fw'); exact P].
+        + split; [|discriminate]. intros e H; inversion H; subst. apply (IH fw'). exact P.
+      - split; [|discriminate]. intros e H; inversion H; subst. apply He. reflexivity. }
+    destruct ln as [|c0 rest0]; [apply IH|].
+    destruct (c0 =? 58).
+    + destruct (parse_data_line (c0 :: rest0)) as [l|x] eqn:D; cbn [bind].
+      * destruct (l_type l =? 255).
+        -- destruct fw as [|f0 fr]; [apply IH|].
+           destruct (parse_lines t []) as [rr|y] eqn:P; cbn [bind].
+           ++ split; [discriminate|]. intros toks H; inversion H; subst. constructor.
+              ** cbn [tok_ok]. intro E. cbn [rev] in E. apply app_eq_nil in E as [_ E]. discriminate.
+              ** apply (IH []). exact P.
+           ++ split; [|discriminate]. intros e H; inversion H; subst. apply (IH []). exact P.
+        -- destruct (l_type l =? 254); apply IH.
+      * split; [|discriminate]. intros e H; inversion H; subst. eapply parse_data_line_err. exact D.
+    + destruct (c0 =? 35); [|apply IH].
+      destruct rest0 as [|c1 rest]; [apply IH|].
+      destruct (c1 =? 62).
+      * apply Cons; apply parse_cmd_line_facts.
+      * destruct (c1 =? 35); [|apply IH]. apply Cons; apply parse_meta_line_facts.
+Qed.
+
+(* ---------------------------------------------------------------------------- *)
+(* error closure of the text-level importer                                      *)
+
+Theorem import_text_closure text enforce e :
+  bf2_import_text text enforce = Err e -> is_format_or_value e = true.
+Proof.
+  unfold bf2_import_text, parse_text.
+  destruct (parse_lines_facts (lines_of text []) []) as [He Ho].
+  destruct (parse_lines (lines_of text []) []) as [toks|x].
+  - apply import_tokens_closure. apply Ho. reflexivity.
+  - rewrite (He x eq_refl). cbn. intro H; inversion H; reflexivity.
+Qed.
+
+(* more precisely: the classes that can come out *)
+Theorem filter_str_closure f e : pfid2_filter_to_str f = Err e -> e = EBf3.
+Proof. exact (filter_str_err f e). Qed.
+
+(* token streams the parser cannot produce still reach non-format errors *)
+Example import_tokens_residual :
+  bf2_import [Load []] true = Err EIndex /\
+  bf2_import [Instr s_load (PDict [])] true = Err EKey /\
+  bf2_import [Instr s_load (PStr [])] true = Err EIndex.
+Proof. vm_compute. repeat split. Qed.
